@@ -797,7 +797,20 @@ class Explorer:
                                               and k[1] != ("zeroinit",)), key=str))
                         if items:
                             return ("agg", items)
-                return self.load(st.store, loc)
+                v0 = self.load(st.store, loc)
+                if loc is not None and v0[0] == "int" and 0 <= v0[1] <= 255 and (loc[0], loc[1] + (1,)) in st.store:
+                    # a scalar that was filled byte by byte through a char pointer (d[0] lands on the scalar's own
+                    # slot, d[k] next to it): read it back as the little-endian value of its bytes
+                    r = TYPE_RANGE.get(n.get("ct") or n.get("t") or "")
+                    nb = {255: 1, 127: 1, 65535: 2, 32767: 2, 2**32 - 1: 4, 2**31 - 1: 4, 2**64 - 1: 8, 2**63 - 1: 8}.get(r[1]) if r else None
+                    if nb and nb > 1:
+                        bs = [v0] + [st.store.get((loc[0], loc[1] + (k_,))) for k_ in range(1, nb)]
+                        if all(b is not None and b[0] == "int" and 0 <= b[1] <= 255 for b in bs):
+                            val = sum(b[1] << (8 * k_) for k_, b in enumerate(bs))
+                            if r[0] < 0 and val > r[1]:
+                                val -= 1 << (8 * nb)
+                            return INT(val)
+                return v0
             if ck == "ArrayToPointerDecay":
                 sn = f.nodes[f.strip(c[0])]
                 if sn["k"] == "StringLiteral":
